@@ -41,12 +41,13 @@ func joinP(a, b pval) pval {
 }
 
 type Taint struct {
-	P        *Prog
-	sources  map[string]string // field → reason
-	memo     map[ssa.Value]pval
-	visiting map[ssa.Value]bool
-	override map[ssa.Value]pval // parameter overrides (used to analyse a function body under assumptions)
-	depth    int
+	yieldSeen map[*ssa.Function]bool
+	P         *Prog
+	sources   map[string]string // field → reason
+	memo      map[ssa.Value]pval
+	visiting  map[ssa.Value]bool
+	override  map[ssa.Value]pval // parameter overrides (used to analyse a function body under assumptions)
+	depth     int
 }
 
 // networkFields derives the struct fields that receive bytes of a decoder's input or of a stream read.
@@ -179,7 +180,7 @@ func (T *Taint) joinAll(vs []ssa.Value) pval {
 func (T *Taint) class(v ssa.Value) pval {
 	P := T.P
 	switch x := v.(type) {
-	case *ssa.Const, *ssa.Global, *ssa.Function, *ssa.Builtin:
+	case *ssa.Const, *ssa.Global, *ssa.Builtin:
 		return pval{}
 	case *ssa.Convert:
 		return T.Class(x.X)
@@ -204,7 +205,8 @@ func (T *Taint) class(v ssa.Value) pval {
 		if why, ok := T.sources[f]; ok {
 			return T.tainted(f+": "+why, P.ipos(x))
 		}
-		return T.Class(x.X)
+		// one field of a struct value: of a struct read whole from a local, only what was put into that field
+		return T.classStructField(x.X, x.Field, 0)
 	case *ssa.Extract:
 		if c, ok := x.Tuple.(*ssa.Call); ok {
 			return T.classCall(c, x.Index)
@@ -256,6 +258,24 @@ func (T *Taint) class(v ssa.Value) pval {
 	case *ssa.FreeVar:
 		return T.classFreeVar(x)
 	case *ssa.MakeClosure:
+		// a function value handed to code that calls it (slices.Collect(seq), a visitor): what comes out of that code
+		// may be whatever the closure captures or hands to its callback parameters (yield)
+		var r pval
+		for _, b := range x.Bindings {
+			if a, isA := b.(*ssa.Alloc); isA {
+				r = joinP(r, T.classCell(a, nil))
+			} else {
+				r = joinP(r, T.Class(b))
+			}
+		}
+		if fn, ok := x.Fn.(*ssa.Function); ok {
+			r = joinP(r, T.classYields(fn))
+		}
+		return r
+	case *ssa.Function:
+		if x.Parent() != nil {
+			return T.classYields(x)
+		}
 		return pval{}
 	case *ssa.Next:
 		return T.Class(x.Iter)
@@ -360,6 +380,13 @@ func (T *Taint) classCell(a *ssa.Alloc, path []int) pval {
 			case *ssa.Store:
 				root, p := addrPath(s.Addr)
 				if F.sameCell(root, a) && pathPrefixCompatible(p, path) {
+					if len(p) < len(path) && path[len(p)] >= 0 {
+						// a struct stored whole, of which one field is asked for
+						if _, isSt := s.Val.Type().Underlying().(*types.Struct); isSt {
+							r = joinP(r, T.classStructField(s.Val, path[len(p)], 0))
+							return
+						}
+					}
 					r = joinP(r, T.Class(s.Val))
 				}
 			case *ssa.Call:
@@ -593,6 +620,10 @@ func (T *Taint) classCall(c *ssa.Call, idx int) pval {
 		if _, isSlice := t.(*types.Slice); isSlice || isStringType(t) {
 			r = joinP(r, T.Class(a))
 		}
+		// a function value (an iterator handed to slices.Collect, a mapping function): what it captures or yields
+		if _, isFunc := t.(*types.Signature); isFunc {
+			r = joinP(r, T.Class(a))
+		}
 	}
 	return r
 }
@@ -636,4 +667,67 @@ func startsRooted(v ssa.Value) bool {
 		v = b.X
 	}
 	return false
+}
+
+// classYields: what a function literal hands to its callback parameters (an iterator's yield).
+func (T *Taint) classYields(fn *ssa.Function) pval {
+	var r pval
+	if T.yieldSeen == nil {
+		T.yieldSeen = map[*ssa.Function]bool{}
+	}
+	if T.yieldSeen[fn] {
+		return r
+	}
+	T.yieldSeen[fn] = true
+	defer delete(T.yieldSeen, fn)
+	for _, f := range withAnons(fn) {
+		for _, ci := range callsIn(f) {
+			c := ci.Common()
+			if p, isP := c.Value.(*ssa.Parameter); isP && !c.IsInvoke() && p.Parent() == fn {
+				for _, a := range c.Args {
+					r = joinP(r, T.Class(a))
+				}
+			}
+		}
+	}
+	return r
+}
+
+// classStructField: field f of the struct value v. A struct that is read whole from a local variable (a literal built
+// field by field, a by-value parameter spilled to memory) or handed in as a parameter is followed field-wise, so that a
+// parameter object carrying a sanitised path next to client data does not make the path client data.
+func (T *Taint) classStructField(v ssa.Value, f int, depth int) pval {
+	if depth > 4 {
+		return T.Class(v)
+	}
+	switch x := stripConv(v).(type) {
+	case *ssa.UnOp:
+		if x.Op == token.MUL {
+			if a, ok := x.X.(*ssa.Alloc); ok {
+				return T.classCell(a, []int{f})
+			}
+		}
+	case *ssa.Parameter:
+		fn := x.Parent()
+		idx := -1
+		for i, q := range fn.Params {
+			if q == x {
+				idx = i
+			}
+		}
+		sites := T.P.callers[fn]
+		if idx < 0 || len(sites) == 0 {
+			break
+		}
+		var r pval
+		for _, ci := range sites {
+			c := ci.Common()
+			if c.IsInvoke() || idx >= len(c.Args) {
+				return T.Class(v)
+			}
+			r = joinP(r, T.via(T.classStructField(c.Args[idx], f, depth+1), fmt.Sprintf("field %d of %s passed to %s at %s", f, x.Name(), fname(fn), T.P.ipos(ci))))
+		}
+		return r
+	}
+	return T.Class(v)
 }
